@@ -3,6 +3,9 @@
 set -e
 cd "$(dirname "$0")"
 export GOFLAGS=-mod=mod GOPROXY=off GOSUMDB=off GOTOOLCHAIN=local
+# the tables under lean/NjectGen are regenerated from /repo (every check does this again)
+mkdir -p .cache/bin
+(cd extract && go build -o ../.cache/bin/extract-setup . && ../.cache/bin/extract-setup "${VERIF_REPO:-/repo}" ../lean/NjectGen >/dev/null)
 (cd lean && lake build)
 mkdir -p .cache/bin evidence
 cp /repo/go.sum harness/go.sum
